@@ -173,6 +173,22 @@ CLAIMS["C04"] = (
     "trusts rustc's MIR; std Vec::reverse / Rev / HashMap entry API",
     "DESIGN.md §5 C04")
 
+# clauses added by later seed rounds (appended to the level text)
+EXTRA = {
+    "C01": "The suffix rule itself is `suffixes.iter().any(|s| key.ends_with(s))` on the registered name and the stored suffix as they are.",
+    "C02": "`x[i]` and `x[a:b:c]` push only the Ok payload of the one typed lookup (Value::get_item / Value::slice) on the popped base, so its type errors are raised, never coerced to undefined.",
+    "C03": "`loop.X` is rewritten exactly under `is_in_loop()`, which is a pure membership test for an enclosing for loop (captures in between do not hide it).",
+    "C04": "Every path through the RenderBlock arm to the next instruction runs the block (no block is stepped over).",
+    "C05": "The VM a component body runs in takes tera, template, the escaping override and the include depth from the calling VM.",
+    "C08": "The three whitespace decisions of a raw block read the dash at their own position (provenance against skip_tag's after-the-name flag).",
+    "C09": "The fused WritePath arm branches on the same two answers as WriteTop (VirtualMachine::autoescape_enabled(), Value::is_safe()).",
+    "C10": "add_file answers Ok only after the insert, with the insert's previous value (what the undo log records).",
+    "C12": "An error of a nested render (include, component) leaves the interpreter only through the place that adds the `called from` note.",
+    "C13": "Two floats are compared with IEEE partial_cmp, NaNs placed by is_nan only where that is undecided; no comparison function looks at a float's bit pattern.",
+    "C16": "`unique` keeps an element exactly when BTreeSet<Value> says it is new; no second membership structure takes part.",
+    "C18": "A String-returning wrapper builds no result of its own before calling its `_to` sibling.",
+}
+
 NA_REASONS = {
     "C04": "which block definition wins and what super() yields depend on lineage values computed at registration; no structural "
            "clause short of re-implementing the resolver; the unbounded-recursion shape found is handled under C07/C11",
@@ -187,6 +203,8 @@ def main():
         pid = p["id"]
         if pid in have and pid in CLAIMS:
             tech, text, note, ref = CLAIMS[pid]
+            if pid in EXTRA:
+                text = text + " Added by later seed rounds: " + EXTRA[pid]
             checks.append({
                 "property_id": pid,
                 "quick_cmd": "./bin/verif check %s --tier quick" % pid,
